@@ -613,7 +613,11 @@ class atom(boolean.AndRestriction):
 
         # If we are both ~ matches we match if we are identical:
         if self.op == other.op == "~":
-            return self.version == other.version and self.revision == other.revision
+            # the same version however it is spelled (1.0 and 1.00, 1_p and 1_p0)
+            return (
+                cpv.ver_cmp(self.version, None, other.version, None) == 0
+                and self.revision == other.revision
+            )
 
         # If we are both glob matches we match if one of us matches the other.
         if self.op == other.op == "=*":
